@@ -2,7 +2,7 @@
     Model: Sched/Smc.v (round structure over the scheduler and one rejection sampler per round).
     Proofs: Proofs/C07_Smc.v (with C01 and C04). *)
 From Coq Require Import List ZArith QArith Qabs Arith Bool PrimFloat.
-From Elfi Require Import Sched.Sched Sched.Reject Sched.Smc Proofs.C01_Reject Proofs.C07_Smc Proofs.C07_Weights.
+From Elfi Require Import Sched.Sched Sched.Reject Sched.Smc Proofs.C01_Reject Proofs.C07_Smc Proofs.C07_Weights Proofs.C07_ModelOk.
 From Elfi Require Num.Quantile.
 Import ListNotations.
 Local Close Scope Q_scope.
@@ -265,3 +265,88 @@ Example C07_num_ok_nonvacuous :
                   q_cov := [[Some (9 # 20000000000000); Some (1 # 1000000)]; [Some 0; Some 180]]%Q;
                   q_dens := q_dens C07_nv_pop1 |}] = false.
 Proof. cbv zeta. repeat split; vm_compute; reflexivity. Qed.
+
+(** ---- the model's OWN populations pass the check (Proofs/C07_ModelOk.v) ----
+    [with_run c s]: the case [c] with the implementation's populations and n_sim replaced by those of the
+    model's final state [s]; [sched_ok]: the scheduling / population clauses of [Smc.ok] (everything but
+    the numeric clauses, [C07_ok_split]); [full_pops n ps]: row n_samples of every population holds a draw. *)
+Theorem C07_ok_split :
+  forall c, Smc.ok c = sched_ok c && (Nat.eqb (length (v_num c)) (length (v_pops c)) && num_ok (v_n c) (v_num c)).
+Proof. exact ok_split. Qed.
+Print Assumptions C07_ok_split.
+
+(** a round that accepted at least n_samples draws ends with row n_samples holding a draw *)
+Theorem C07_enough_accepted_full :
+  forall n b thr rj consumed,
+    0 < n -> Reach n b thr rj consumed -> n <= length (filter (accepts thr) consumed) ->
+    row_filled n (pop_of rj) = true.
+Proof. exact enough_accepted_full. Qed.
+Print Assumptions C07_enough_accepted_full.
+
+Theorem C07_model_sched_ok :
+  forall c s,
+    v_rounds c <> [] ->
+    0 < v_n c ->
+    Forall (fun batch => length batch <= v_b c) (v_table c) ->
+    model_run c = Some s ->
+    m_total s = length (v_table c) ->
+    full_pops (v_n c) (all_populations s) = true ->
+    sched_ok (with_run c s) = true.
+Proof. exact model_sched_ok. Qed.
+Print Assumptions C07_model_sched_ok.
+
+Theorem C07_model_ok :
+  forall c s,
+    v_rounds c <> [] ->
+    0 < v_n c ->
+    Forall (fun batch => length batch <= v_b c) (v_table c) ->
+    model_run c = Some s ->
+    m_total s = length (v_table c) ->
+    full_pops (v_n c) (all_populations s) = true ->
+    length (v_num c) = length (v_rounds c) ->
+    num_ok (v_n c) (v_num c) = true ->
+    Smc.ok (with_run c s) = true.
+Proof. exact C07_ModelOk.model_ok. Qed.
+Print Assumptions C07_model_ok.
+
+(** an implementation that agrees with the model has the property *)
+Theorem C07_agree_ok :
+  forall c s,
+    v_rounds c <> [] ->
+    0 < v_n c ->
+    Forall (fun batch => length batch <= v_b c) (v_table c) ->
+    model_run c = Some s ->
+    m_total s = length (v_table c) ->
+    full_pops (v_n c) (all_populations s) = true ->
+    length (v_num c) = length (v_rounds c) ->
+    num_ok (v_n c) (v_num c) = true ->
+    Smc.agree c = true -> Smc.ok c = true.
+Proof. exact C07_ModelOk.agree_ok. Qed.
+Print Assumptions C07_agree_ok.
+
+(** the same with every hypothesis read off the implementation's own answer *)
+Theorem C07_agree_sched_ok :
+  forall c,
+    v_rounds c <> [] ->
+    0 < v_n c ->
+    Forall (fun batch => length batch <= v_b c) (v_table c) ->
+    v_n_sim c = v_b c * length (v_table c) -> 0 < v_b c ->
+    full_pops (v_n c) (v_pops c) = true ->
+    Smc.agree c = true -> sched_ok c = true.
+Proof. exact agree_sched_ok. Qed.
+Print Assumptions C07_agree_sched_ok.
+
+(** the two-round run of [C07_example] with the numeric side of [C07_num_ok_nonvacuous] (population size 3):
+    every hypothesis of [C07_model_ok] holds and the model's own answer passes the whole of [Smc.ok] *)
+Example C07_model_ok_example :
+  let c := {| v_n := 3; v_b := 2; v_maxp := 1; v_rounds := [RThreshold (Fin 3); RThreshold (Fin 1)];
+              v_table := [[dq 2 0; dq 5 1]; [dq 3 2; dq 3 3]; [dq 1 4; dq 2 5]; [dq 0 6; dq 1 7]];
+              v_pops := []; v_n_sim := 0; v_num := [C07_nv_pop0; C07_nv_pop1] |} in
+  match model_run c with
+  | Some s => Nat.eqb (m_total s) (length (v_table c)) && full_pops (v_n c) (all_populations s)
+              && Nat.eqb (length (v_num c)) (length (v_rounds c)) && num_ok (v_n c) (v_num c)
+              && forallb (fun batch => Nat.leb (length batch) (v_b c)) (v_table c)
+              && Smc.ok (with_run c s) && Smc.agree (with_run c s) && negb (Smc.ok c)
+  | None => false
+  end = true.
+Proof. vm_compute. reflexivity. Qed.
